@@ -123,6 +123,20 @@ def all_jobs():
                   unwind=5, unwind_why='iteration over the rule list, modelled by an array of at most 3 rules (if / elsif / else chains of at most 3 rules)', bounded_inputs=True,
                   transparent=['std::pair<bloc::Expression*, bloc::Executable*>'],
                   structs=DEFAULT_STRUCTS + ['bloc::Symbol', 'bloc::Context', 'bloc::Executable']))
+    # ---- C07: begin blocks and the catchable set ----
+    PAIR_SE = 'std::pair<' + STD_STRING + ', bloc::Executable*>'
+    FINDT = '_ZN4bloc12RuntimeError13findThrowableERKNSt7__cxx1112basic_stringIcSt11char_traitsIcESaIcEEE'
+    THRW = '_ZN4bloc12RuntimeError9throwableENS_6EXC_RTE'
+    for fn, mg, uw in (('docatch', '_ZNK4bloc14BEGINStatement7docatchERKNS_12RuntimeErrorERNS_7ContextE', 18), ('doit', '_ZNK4bloc14BEGINStatement4doitERNS_7ContextE', 18)):
+        J.append(dict(id='stmt_begin_' + fn, src='blocc/statement_begin.cpp', contract='stmt_begin.c', enforce=mg, roots=[mg], replace=[FINDT, THRW],
+                      cut=[RUN, FINDT, THRW], props=['C01', 'C07'], pretty='bloc::BEGINStatement::' + fn, canaries=['normal', 'exceptional'],
+                      unwind=uw, unwind_why='iteration over the handler list, modelled by an array of at most 3 `when` clauses; comparison of constant C strings of at most 15 characters (complete)', bounded_inputs=True,
+                      transparent=[PAIR_SE], structs=DEFAULT_STRUCTS + [STD_STRING, VEC_CHAR, 'bloc::Expression', 'bloc::Context', 'bloc::Executable', 'bloc::BEGINStatement']))
+    for fn, mg in (('throwable', THRW), ('findThrowable', FINDT)):
+        J.append(dict(id='rt_' + fn, src='blocc/exception_runtime.cpp', contract='rt_throwable.c', enforce=mg, roots=[mg], replace=[], cut=[],
+                      props=['C07'], pretty='bloc::RuntimeError::' + fn, canaries=['normal'], globals=['bloc::RuntimeError::THROWABLES'],
+                      unwind=18, unwind_why='loop over the 3 rows of the constant table RuntimeError::THROWABLES; comparison of constant C strings of at most 15 characters (both complete)',
+                      enums=['bloc::EXC_RT'], structs=['bloc::RuntimeError', STD_STRING, 'bloc::RuntimeError::THROWABLE']))
     return J
 
 def known_findings():
